@@ -102,6 +102,16 @@ func (w *World) FlatRootClosure(mc *ssa.MakeClosure) *FCtx {
 		for i, fv := range g.FreeVars {
 			if v := singleAssignment(mc.Bindings[i]); v != nil {
 				params["free:"+fv.Name()] = w.ResolveCaptured(w.ExprOf(v))
+			} else if al, ok := mc.Bindings[i].(*ssa.Alloc); ok && settledBefore(al, mc) {
+				// assigned on several ways before the literal is made and never afterwards (`purchaser := ""; if req.P != "" {
+				// purchaser = canonical(req.P) }`): what it holds where the literal is made
+				b := w.builderFor(al.Parent())
+				if b.rd != nil {
+					saved := b.rd.captured[al]
+					b.rd.captured[al] = false
+					params["free:"+fv.Name()] = w.ResolveCaptured(b.rd.at(mc, al, nil))
+					b.rd.captured[al] = saved
+				}
 			}
 		}
 	}
@@ -1728,4 +1738,55 @@ func nilness(e *Expr) (isNil, known bool) {
 		return v, !first
 	}
 	return false, false
+}
+
+// settledBefore: every assignment to the captured variable al happens before the function literal mc is made — none can
+// follow it (in the enclosing function), no other literal captures it, and mc's own function does not assign it.
+func settledBefore(al *ssa.Alloc, mc *ssa.MakeClosure) bool {
+	if al.Referrers() == nil {
+		return false
+	}
+	for _, r := range *al.Referrers() {
+		switch x := r.(type) {
+		case *ssa.Store:
+			if x.Addr != ssa.Value(al) {
+				return false
+			}
+			if x.Block() == mc.Block() {
+				if InstrIndex(x) > InstrIndex(mc) {
+					return false
+				}
+				continue
+			}
+			if ReachesFrom(al.Parent(), mc.Block(), InstrIndex(mc)+1, x, Cut{}) {
+				return false
+			}
+		case *ssa.MakeClosure:
+			if x != mc {
+				return false
+			}
+			fn, ok := x.Fn.(*ssa.Function)
+			if !ok {
+				return false
+			}
+			for i, bd := range x.Bindings {
+				if bd == ssa.Value(al) && i < len(fn.FreeVars) {
+					if refs := fn.FreeVars[i].Referrers(); refs != nil {
+						for _, fr := range *refs {
+							if st, ok := fr.(*ssa.Store); ok && st.Addr == ssa.Value(fn.FreeVars[i]) {
+								return false
+							}
+							if _, ok := fr.(*ssa.MakeClosure); ok {
+								return false
+							}
+						}
+					}
+				}
+			}
+		case *ssa.UnOp, *ssa.DebugRef:
+		default:
+			return false
+		}
+	}
+	return true
 }
